@@ -33,7 +33,7 @@ class C05(Engine):
     name = "read-fault-sim"
     level = "fault_enumeration"
     expected_kinds = {"prefix_tok", "prefix_chr", "tok_del", "tok_rep", "tok_ins", "tok_swap", "edit_pair", "flip",
-                      "non_ascii", "bad_utf8", "lex_exhaustive", "lex_seeded", "lex_long_run", "pipeline_long_run", "pipeline_deep_nest", "cli_level", "prefix_line", "tok_rep_kw", "tok_rep_macro", "line_tail_lost", "undamaged"}
+                      "non_ascii", "bad_utf8", "lex_exhaustive", "lex_seeded", "lex_long_run", "pipeline_long_run", "pipeline_deep_nest", "cli_level", "prefix_line", "tok_rep_kw", "tok_rep_macro", "line_tail_lost", "undamaged", "fs_shape"}
     rule_text = ("Every base program (hand-written specials, generated conforming/violating files, repository samples; the quick tier "
                  "caps the volume) x both file types x EVERY token boundary (prefix_tok), every line boundary (prefix_line), every lost "
                  "line tail, every single-token deletion, the middle of every multi-character token, every identifier of every "
@@ -259,6 +259,29 @@ class C05(Engine):
             elif so < 0.3:
                 sc["ops"][0]["stdout"] = "strict"
             yield 5_000_000 + i, sc
+        # CLI level, unusual shapes of the file system below a directory argument (the directory walk is part of "gets an answer")
+        src = P.files[base_ids[0]]["content"]
+        deep = {"a.c": src}
+        for k in range(60):
+            deep = {f"d{k}": deep}
+        shapes = [
+            ("link_loop_up", {"proj": {"a.c": src, "sub": {"back": "->..", "b.h": src}}}, ["proj"], "."),
+            ("link_loop_self", {"proj": {"a.c": src, "self": "->."}}, ["proj"], "."),
+            ("link_loop_cwd", {"proj": {"a.c": src, "sub": {"back": "->.."}}}, [], "proj"),
+            ("link_loop_pair", {"p": {"x": "->../q", "a.c": src}, "q": {"y": "->../p", "b.c": src}}, ["p", "q"], "."),
+            ("dangling_source_link", {"proj": {"gone.c": "->nowhere.c", "a.c": src}}, ["proj"], "."),
+            ("dangling_source_link_named", {"proj": {"gone.c": "->nowhere.c", "a.c": src}}, ["proj/a.c", "proj/gone.c"], "."),
+            ("dangling_dir_link", {"proj": {"lib": "->../missing", "a.c": src}}, ["proj"], "."),
+            ("device_link", {"proj": {"null.c": "->/dev/null", "a.c": src}}, ["proj"], "."),
+            ("deep_tree_60", deep, ["d59"], "."),
+            ("long_name_250", {"proj": {"n" * 248 + ".c": src}}, ["proj"], "."),
+            ("dir_named_like_option", {"proj": {"-x": {"a.c": src}}}, ["proj"], "."),
+            ("newline_in_name", {"proj": {"a\nb.c": src, "c\td.h": src}}, ["proj"], "."),
+        ]
+        for k, (name, tree, argv, cwd) in enumerate(shapes):
+            for opts in ([], ["-f", "json"]):
+                yield 5_800_000 + 2 * k + (1 if opts else 0), {"kind": "clifault", "fault": "fs_shape", "desc": name, "tree": tree,
+                                                               "ops": [{"op": "cli", "argv": opts + argv, "cwd": cwd}]}
         # tokenizer alone
         yield from self.lex_scenarios()
         yield from self.nest_scenarios()
